@@ -388,9 +388,11 @@ def NS (mods : List Str) (s : Str) : Prop := ∃ m ∈ mods, ∃ p ∈ parentMod
 /-- hierarchy pairs: (parent of e, e) for every node e with at least two components -/
 def HS (mods : List Str) (s e : Str) : Prop := NS lim mods e ∧ isCh e ∧ s = par e
 
-/-- import pairs: flattened ends of an import, distinct and both nodes -/
-def IS (mods : List Str) (imps : List ImportRec) (s e : Str) : Prop :=
-  s ≠ e ∧ NS lim mods s ∧ NS lim mods e ∧ ∃ i ∈ imps, s = flattenNode lim i.importer ∧ e = flattenNode lim i.importee
+/-- import pairs: flattened ends of an import (with a level limit: of an import between known modules), distinct and
+    both nodes -/
+def IS (mods : List Str) (known : List Str) (imps : List ImportRec) (s e : Str) : Prop :=
+  s ≠ e ∧ NS lim mods s ∧ NS lim mods e ∧
+    ∃ i ∈ imps, skipImportEdge lim known i = false ∧ s = flattenNode lim i.importer ∧ e = flattenNode lim i.importee
 
 theorem NS_append (D : List Str) (m : Str) (s : Str) :
     NS lim (D ++ [m]) s ↔ NS lim D s ∨ ∃ p ∈ parentModules m ++ [m], s = flattenNode lim p := by
@@ -524,10 +526,10 @@ theorem modules_exact (mods : List Str) : ExM lim (addAllModules lim PGraph.empt
 /-! ### import phase -/
 
 /-- exact description after the modules `mods` and the imports `D` have been processed -/
-def ExI (mods : List Str) (g : PGraph Str) (D : List ImportRec) : Prop :=
+def ExI (mods : List Str) (known : List Str) (g : PGraph Str) (D : List ImportRec) : Prop :=
   Fn g ∧ (∀ s, s ∈ g.nodes ↔ NS lim mods s) ∧
   ∀ x, x ∈ g.edges ↔ (x.inh = true ∧ HS lim mods x.src x.dst) ∨
-    (x.inh = false ∧ IS lim mods D x.src x.dst ∧ ¬ HS lim mods x.src x.dst)
+    (x.inh = false ∧ IS lim mods known D x.src x.dst ∧ ¬ HS lim mods x.src x.dst)
 
 theorem step_logic (t : Bool) (P3 P2 K H ID : Prop) (h3 : P3 → H) (h2 : P2 → H) (hk : K → H → P3) :
     ((t = true ∧ P3) ∨ (((t = true ∧ P2) ∨ (((t = false ∧ K) ∨ (((t = true ∧ H) ∨ (t = false ∧ ID ∧ ¬H)) ∧ ¬K)) ∧ ¬P2)) ∧ ¬P3)) ↔
@@ -535,21 +537,48 @@ theorem step_logic (t : Bool) (P3 P2 K H ID : Prop) (h3 : P3 → H) (h2 : P2 →
   by_cases a : P3 <;> by_cases b : P2 <;> by_cases c : K <;> by_cases d : H <;> by_cases e : ID <;>
     cases t <;> simp_all
 
-theorem step_import (mods : List Str) (g : PGraph Str) (D : List ImportRec) (i : ImportRec) (h : ExI lim mods g D)
+/-- the guarded first stage of `addImport` -/
+theorem first_mem (known : List Str) (g : PGraph Str) (hfn : Fn g) (i : ImportRec) (x : Edge Str) :
+    x ∈ (if skipImportEdge lim known i then g else createEdge lim g i.importer i.importee false).edges ↔
+      (x.inh = false ∧ (skipImportEdge lim known i = false ∧ wcond lim g i.importer i.importee) ∧
+        x.src = flattenNode lim i.importer ∧ x.dst = flattenNode lim i.importee) ∨
+      (x ∈ g.edges ∧ ¬((skipImportEdge lim known i = false ∧ wcond lim g i.importer i.importee) ∧
+        x.src = flattenNode lim i.importer ∧ x.dst = flattenNode lim i.importee)) := by
+  cases hs : skipImportEdge lim known i with
+  | true => simp
+  | false =>
+    simp only [Bool.false_eq_true, if_false, true_and]
+    exact createEdge_mem lim g hfn _ _ false x
+
+theorem first_fn (known : List Str) (g : PGraph Str) (hfn : Fn g) (i : ImportRec) :
+    Fn (if skipImportEdge lim known i then g else createEdge lim g i.importer i.importee false) := by
+  split
+  · exact hfn
+  · exact createEdge_fn lim g hfn _ _ false
+
+theorem step_import (mods : List Str) (known : List Str) (g : PGraph Str) (D : List ImportRec) (i : ImportRec)
+    (h : ExI lim mods known g D)
     (h1 : i.importer ∈ mods) (h2 : i.importeeParents = parentModules i.importee) :
-    ExI lim mods (addImport lim g i) (D ++ [i]) := by
+    ExI lim mods known (addImport lim known g i) (D ++ [i]) := by
   obtain ⟨hfn, hn, he⟩ := h
   unfold addImport
   simp only []
   rw [h2]
   -- the three stages
-  have hfn1 := createEdge_fn lim g hfn i.importer i.importee false
-  have hn1 : ∀ s, s ∈ (createEdge lim g i.importer i.importee false).nodes ↔ NS lim mods s := by
-    intro s; rw [createEdge_nodes]; exact hn s
+  generalize hg1 : (if skipImportEdge lim known i then g else createEdge lim g i.importer i.importee false) = g1
+  have hfn1 : Fn g1 := by rw [← hg1]; exact first_fn lim known g hfn i
+  have hm1 : ∀ x, x ∈ g1.edges ↔
+      (x.inh = false ∧ (skipImportEdge lim known i = false ∧ wcond lim g i.importer i.importee) ∧
+        x.src = flattenNode lim i.importer ∧ x.dst = flattenNode lim i.importee) ∨
+      (x ∈ g.edges ∧ ¬((skipImportEdge lim known i = false ∧ wcond lim g i.importer i.importee) ∧
+        x.src = flattenNode lim i.importer ∧ x.dst = flattenNode lim i.importee)) := by
+    intro x; rw [← hg1]; exact first_mem lim known g hfn i x
+  have hn1 : ∀ s, s ∈ g1.nodes ↔ NS lim mods s := by
+    intro s; rw [← hg1, addImport_nodes_first]; exact hn s
   obtain ⟨hfn2, he2⟩ := addHierarchy_mem lim _ hfn1 (parentModules i.importer) i.importer
   have hpar : ∀ p ∈ parentModules i.importer, NS lim mods (flattenNode lim p) :=
     fun p hp => ⟨i.importer, h1, p, List.mem_append_left _ hp, rfl⟩
-  have hn2 : ∀ s, s ∈ (addHierarchy lim (createEdge lim g i.importer i.importee false)
+  have hn2 : ∀ s, s ∈ (addHierarchy lim g1
       (parentModules i.importer) i.importer).nodes ↔ NS lim mods s := by
     intro s
     rw [addHierarchy_nodes, hn1]
@@ -559,7 +588,7 @@ theorem step_import (mods : List Str) (g : PGraph Str) (D : List ImportRec) (i :
       · exact hpar p hp
     · exact Or.inl
   have hn2' : ∀ s, s ∈ ((parentModules i.importer).foldl (createNode lim)
-      (createEdge lim g i.importer i.importee false)).nodes ↔ NS lim mods s := by
+      g1).nodes ↔ NS lim mods s := by
     intro s
     rw [nodeFold_nodes, hn1]
     constructor
@@ -570,37 +599,39 @@ theorem step_import (mods : List Str) (g : PGraph Str) (D : List ImportRec) (i :
   obtain ⟨hfn3, he3⟩ := edgeFold_mem lim true (consecutive (parentModules i.importee ++ [i.importee])) _ hfn2
   refine ⟨hfn3, ?_, fun x => ?_⟩
   · intro s; rw [edgeFold_nodes]; exact hn2 s
-  · rw [he3, he2, createEdge_mem lim g hfn, he, WP_chain, WP_chain]
+  · rw [he3, he2, hm1, he, WP_chain, WP_chain]
     simp only [hn2 _, hn2' _]
     have hw0 : wcond lim g i.importer i.importee ↔
         (flattenNode lim i.importer ≠ flattenNode lim i.importee ∧ NS lim mods (flattenNode lim i.importer) ∧
           NS lim mods (flattenNode lim i.importee)) := by
       unfold wcond; rw [hn, hn]
     rw [hw0]
-    have hIS : IS lim mods (D ++ [i]) x.src x.dst ↔ IS lim mods D x.src x.dst ∨
-        ((flattenNode lim i.importer ≠ flattenNode lim i.importee ∧ NS lim mods (flattenNode lim i.importer) ∧
-          NS lim mods (flattenNode lim i.importee)) ∧ x.src = flattenNode lim i.importer ∧
+    have hIS : IS lim mods known (D ++ [i]) x.src x.dst ↔ IS lim mods known D x.src x.dst ∨
+        ((skipImportEdge lim known i = false ∧
+          (flattenNode lim i.importer ≠ flattenNode lim i.importee ∧ NS lim mods (flattenNode lim i.importer) ∧
+          NS lim mods (flattenNode lim i.importee))) ∧ x.src = flattenNode lim i.importer ∧
           x.dst = flattenNode lim i.importee) := by
       unfold IS
       simp only [List.mem_append, List.mem_singleton]
       constructor
-      · rintro ⟨a1, a2, a3, j, hj | rfl, a4, a5⟩
-        · exact Or.inl ⟨a1, a2, a3, j, hj, a4, a5⟩
-        · right; rw [← a4, ← a5]; exact ⟨⟨a1, a2, a3⟩, rfl, rfl⟩
-      · rintro (⟨a1, a2, a3, j, hj, a4, a5⟩ | ⟨⟨a1, a2, a3⟩, a4, a5⟩)
-        · exact ⟨a1, a2, a3, j, Or.inl hj, a4, a5⟩
-        · rw [a4, a5]; exact ⟨a1, a2, a3, i, Or.inr rfl, rfl, rfl⟩
+      · rintro ⟨a1, a2, a3, j, hj | rfl, a6, a4, a5⟩
+        · exact Or.inl ⟨a1, a2, a3, j, hj, a6, a4, a5⟩
+        · right; rw [← a4, ← a5]; exact ⟨⟨a6, a1, a2, a3⟩, rfl, rfl⟩
+      · rintro (⟨a1, a2, a3, j, hj, a6, a4, a5⟩ | ⟨⟨a6, a1, a2, a3⟩, a4, a5⟩)
+        · exact ⟨a1, a2, a3, j, Or.inl hj, a6, a4, a5⟩
+        · rw [a4, a5]; exact ⟨a1, a2, a3, i, Or.inr rfl, a6, rfl, rfl⟩
     rw [hIS]
     have key := step_logic x.inh
       (HPc lim i.importee x.src x.dst ∧ NS lim mods x.src ∧ NS lim mods x.dst)
       (HPc lim i.importer x.src x.dst ∧ NS lim mods x.src ∧ NS lim mods x.dst)
-      ((flattenNode lim i.importer ≠ flattenNode lim i.importee ∧ NS lim mods (flattenNode lim i.importer) ∧
-          NS lim mods (flattenNode lim i.importee)) ∧ x.src = flattenNode lim i.importer ∧
+      ((skipImportEdge lim known i = false ∧
+          (flattenNode lim i.importer ≠ flattenNode lim i.importee ∧ NS lim mods (flattenNode lim i.importer) ∧
+          NS lim mods (flattenNode lim i.importee))) ∧ x.src = flattenNode lim i.importer ∧
           x.dst = flattenNode lim i.importee)
-      (HS lim mods x.src x.dst) (IS lim mods D x.src x.dst)
+      (HS lim mods x.src x.dst) (IS lim mods known D x.src x.dst)
       (fun h => HS_of_HPc lim h.1 h.2.2) (fun h => HS_of_HPc lim h.1 h.2.2)
       (by
-        rintro ⟨⟨-, b2, b3⟩, b4, b5⟩ ⟨-, c2, c3⟩
+        rintro ⟨⟨-, -, b2, b3⟩, b4, b5⟩ ⟨-, c2, c3⟩
         refine ⟨?_, b4 ▸ b2, b5 ▸ b3⟩
         rw [c3, b5]
         rw [b5] at c2
@@ -609,11 +640,11 @@ theorem step_import (mods : List Str) (g : PGraph Str) (D : List ImportRec) (i :
 
 theorem imports_exact (mods : List Str) (imps : List ImportRec)
     (h1 : ∀ i ∈ imps, i.importer ∈ mods) (h2 : ∀ i ∈ imps, i.importeeParents = parentModules i.importee) :
-    ExI lim mods (buildGraph mods imps lim) imps := by
+    ExI lim mods (knownModules mods) (buildGraph mods imps lim) imps := by
   unfold buildGraph
   have key : ∀ (l : List ImportRec) (g : PGraph Str) (D : List ImportRec), (∀ i ∈ l, i.importer ∈ mods) →
-      (∀ i ∈ l, i.importeeParents = parentModules i.importee) → ExI lim mods g D →
-      ExI lim mods (l.foldl (addImport lim) g) (D ++ l) := by
+      (∀ i ∈ l, i.importeeParents = parentModules i.importee) → ExI lim mods (knownModules mods) g D →
+      ExI lim mods (knownModules mods) (l.foldl (addImport lim (knownModules mods)) g) (D ++ l) := by
     intro l
     induction l with
     | nil => intro g D _ _ h; simpa using h
@@ -621,10 +652,10 @@ theorem imports_exact (mods : List Str) (imps : List ImportRec)
       intro g D a1 a2 h
       simp only [List.foldl_cons]
       have := ih _ _ (fun j hj => a1 j (List.mem_cons_of_mem _ hj)) (fun j hj => a2 j (List.mem_cons_of_mem _ hj))
-        (step_import lim mods g D i h (a1 i List.mem_cons_self) (a2 i List.mem_cons_self))
+        (step_import lim mods _ g D i h (a1 i List.mem_cons_self) (a2 i List.mem_cons_self))
       simpa using this
   obtain ⟨m1, m2, m3⟩ := modules_exact lim mods
-  have h0 : ExI lim mods (addAllModules lim PGraph.empty mods) [] := by
+  have h0 : ExI lim mods (knownModules mods) (addAllModules lim PGraph.empty mods) [] := by
     refine ⟨m1, m2, fun x => ?_⟩
     rw [m3]
     simp [IS]
@@ -645,14 +676,23 @@ theorem HS_congr (lim : Option Nat) {mods mods' : List Str} (h : ∀ x, x ∈ mo
     HS lim mods s e ↔ HS lim mods' s e := by
   unfold HS; rw [NS_congr lim h]
 
+theorem knownModules_congr {mods mods' : List Str} (h : ∀ x, x ∈ mods ↔ x ∈ mods') (s : Str) :
+    s ∈ knownModules mods ↔ s ∈ knownModules mods' := by
+  rw [mem_knownModules, mem_knownModules, h]
+  apply or_congr Iff.rfl
+  constructor
+  · rintro ⟨m, hm, r⟩; exact ⟨m, (h m).1 hm, r⟩
+  · rintro ⟨m, hm, r⟩; exact ⟨m, (h m).2 hm, r⟩
+
 theorem IS_congr (lim : Option Nat) {mods mods' : List Str} {imps imps' : List ImportRec}
     (h : ∀ x, x ∈ mods ↔ x ∈ mods') (hi : ∀ x, x ∈ imps ↔ x ∈ imps') (s e : Str) :
-    IS lim mods imps s e ↔ IS lim mods' imps' s e := by
+    IS lim mods (knownModules mods) imps s e ↔ IS lim mods' (knownModules mods') imps' s e := by
   unfold IS
   rw [NS_congr lim h, NS_congr lim h]
+  have hk := fun i => skipImportEdge_congr lim _ _ i (knownModules_congr h)
   constructor
-  · rintro ⟨a, b, c, i, hi', r⟩; exact ⟨a, b, c, i, (hi i).1 hi', r⟩
-  · rintro ⟨a, b, c, i, hi', r⟩; exact ⟨a, b, c, i, (hi i).2 hi', r⟩
+  · rintro ⟨a, b, c, i, hi', r1, r⟩; exact ⟨a, b, c, i, (hi i).1 hi', (hk i) ▸ r1, r⟩
+  · rintro ⟨a, b, c, i, hi', r1, r⟩; exact ⟨a, b, c, i, (hi i).2 hi', (hk i).symm ▸ r1, r⟩
 
 /-- `buildGraph` depends on the module list and on the import list only as SETS, provided the importers are listed
     modules and the imports carry the parents of their importees -/
